@@ -9,7 +9,7 @@
 From Coq Require Import QArith Qminmax List Bool Arith.
 From WSI Require Import Vqip Pow Tank Arc QTank Distrib Run TankLaws ArcLaws QTankLaws QueueLaws DistribLaws.
 From WSI Require Net NetLaws.
-From WSI Require Kinds TimeArea Boundary Demand DemandLaws.
+From WSI Require Kinds TimeArea Boundary Demand DemandLaws Wtw WtwLaws.
 Import ListNotations.
 Open Scope Q_scope.
 
@@ -112,3 +112,20 @@ Theorem C01_demand_node_keeps_its_declared_accounts : forall S (P : port S) (K :
     cmp c (Demand.dm_demand S n') - cmp c (Demand.dm_demand S n) == DemandLaws.isum c its.
 Proof. exact DemandLaws.dm_create_books. Qed.
 Print Assumptions C01_demand_node_keeps_its_declared_accounts.
+
+(* ---- treatment works (coq/Wtw.v, tied by family wtw) ----
+   the treatment step turns its input into effluent, liquor and solids and nothing else, whatever the process
+   parameters and the temperature; WWTW.calculate_discharge (clear the stormwater tank as far as throughput allows,
+   re-treat the liquor carried over, treat) creates and loses nothing: volume and every additive pollutant *)
+Theorem C01_treatment_step_conserves : forall p influent treated liquor c, conserved c ->
+  let '(treated', liquor', solids) := Wtw.w_treat p influent treated liquor in
+  (cmp c treated' - cmp c treated) + cmp c liquor' + cmp c solids == cmp c influent.
+Proof. exact WtwLaws.w_treat_conserves. Qed.
+Print Assumptions C01_treatment_step_conserves.
+Theorem C01_wwtw_calculate_discharge_conserves : forall S (w : Wtw.wwtw S) c, conserved c -> nonneg (t_sto (Wtw.ww_tank S w)) ->
+  let w' := Wtw.ww_calculate_discharge S w in
+  (cmp c (Wtw.ww_treated S w') - cmp c (Wtw.ww_treated S w)) + cmp c (Wtw.ww_liquor S w') + cmp c (Wtw.ww_solids S w')
+    + cmp c (t_sto (Wtw.ww_tank S w')) ==
+  cmp c (Wtw.ww_cur S w) + cmp c (Wtw.ww_liquor S w) + cmp c (t_sto (Wtw.ww_tank S w)).
+Proof. exact WtwLaws.ww_calculate_conserves. Qed.
+Print Assumptions C01_wwtw_calculate_discharge_conserves.
